@@ -83,12 +83,18 @@ _FIRST = {'sum', 'mean', 'cumsum', 'cumprod', 'cummul', 'squeeze', 'unsqueeze', 
           'sort', 'argsort', 'count_nonzero', 'vector_norm', 'roll', 'diff', 'movedim', 'flatten', 'unflatten', 'split', 'chunk', 'index_copy',
           'index_copy_', 'index_add', 'index_add_', 'index_fill', 'index_fill_', 'scatter', 'scatter_', 'scatter_add', 'take_along_dim', 'cat', 'concat',
           'concatenate', 'stack', 'cross'}
+_FULL_REDUCERS = {'norm', 'vector_norm', 'sum', 'mean', 'prod', 'amax', 'amin', 'std', 'var', 'logsumexp', 'nansum', 'median'}
 _AXIS_POS = {'norm': 2, 'cross': 2, 'roll': 2, 'split': 2, 'chunk': 2, 'cumops': 1, 'topk': 2, 'unflatten': 1, 'diff': 2, 'take_along_dim': 2}
 
 
 def front_axes(fnode):
     """[(node, description)]: axis arguments that are non-negative integer literals >= 1 (counted from the front), `.T` / `.t()` full reversals"""
     out = []
+    in_test = set()
+    for n in ast.walk(fnode):
+        if isinstance(n, (ast.If, ast.While, ast.IfExp, ast.Assert)):
+            for x in ast.walk(n.test):
+                in_test.add(id(x))
     for n in ast.walk(fnode):
         if isinstance(n, ast.Attribute) and n.attr == 'T' and isinstance(n.ctx, ast.Load):
             out.append((n, '`.T` reverses EVERY axis: on a batch of more than one dimension the batch axes are reversed too (`.mT` / transpose(-1, -2) '
@@ -102,6 +108,15 @@ def front_axes(fnode):
         if name == 't' and not n.args and not func_form:
             out.append((n, '`.t()` is defined for matrices only: any batch dimension makes it raise'))
             continue
+        # a reduction with NO axis collapses the batch axes as well
+        if name in _FULL_REDUCERS and id(n) not in in_test:
+            kw0 = {k.arg for k in n.keywords}
+            nargs = len(n.args) - (1 if func_form else 0)
+            has_axis = bool(kw0 & {'dim', 'axis'}) or nargs >= (2 if name in ('norm', 'vector_norm', 'matrix_norm') else 1)
+            if not has_axis:
+                out.append((n, 'reduction without an axis: the whole tensor, batch dimensions included, is collapsed into one number - every item of a batch is then '
+                               'treated with a quantity computed from all of them'))
+                continue
         cands = []
         kw = {k.arg: k.value for k in n.keywords}
         for k in ('dim', 'axis', 'dims', 'start_dim', 'end_dim', 'dim0', 'dim1'):
@@ -145,6 +160,66 @@ def rule_frontaxis(repo, rid, modules):
                 res.add(Finding(rid, f, '`%s`: %s' % (src(node)[:60], why), node=node, construct='front-axis|' + norm_construct(node, f.node)))
     fx = ast.parse('def f(a, b):\n    x = torch.norm(a, 2, -1) + torch.norm(a, 2, 1)\n    y = torch.cat([a, b], dim=-1).sum(1)\n    z = a.T @ b.mT\n'
                    '    w = a.transpose(-1, -2).transpose(1, 2)\n    return torch.linalg.norm(a, dim=1), a.unsqueeze(0), a.view(-1, 3)\n').body[0]
-    if len(front_axes(fx)) != 5:
-        raise AnalysisError('%s: fixture no longer classified (%d)' % (rid, len(front_axes(fx))))
+    fx2 = ast.parse('def g(q, eps):\n    n = torch.linalg.vector_norm(q, ord=2, keepdim=True)\n    m = q.norm(p=2, dim=-1)\n    if q.abs().sum() > 0:\n        pass\n    return q / n, m, q.sum(-1)\n').body[0]
+    if len(front_axes(fx)) != 5 or len(front_axes(fx2)) != 1:
+        raise AnalysisError('%s: fixture no longer classified (%d, %d)' % (rid, len(front_axes(fx)), len(front_axes(fx2))))
+    return res
+
+
+# ------------------------------------------------------------------------------------------------ whole-batch data-dependent branches
+
+_REDUCERS = {'all', 'any', 'item', 'max', 'min', 'sum', 'mean', 'prod', 'count_nonzero', 'norm', 'allclose', 'equal', 'isclose', 'amax', 'amin', 'nonzero', 'tolist'}
+
+
+def batch_branches(fnode):
+    """[(node, reduction source)]: `if` / ternary / `while` tests that collapse the VALUES of a tensor over the whole batch and select a computation (the
+    branch does not raise)"""
+    out = []
+    for n in ast.walk(fnode):
+        if isinstance(n, (ast.If, ast.While)):
+            test, body = n.test, n.body
+            if body and all(isinstance(st, (ast.Raise, ast.Assert)) or (isinstance(st, ast.Expr) and isinstance(st.value, ast.Call) and 'warn' in (dotted(st.value.func) or ''))
+                            for st in body) and not n.orelse:
+                continue                                   # validation: rejects the input, does not choose a formula
+        elif isinstance(n, ast.IfExp):
+            test = n.test
+        else:
+            continue
+        for c in ast.walk(test):
+            if not isinstance(c, ast.Call):
+                continue
+            d = dotted(c.func) or ''
+            name = d.split('.')[-1] if d else (c.func.attr if isinstance(c.func, ast.Attribute) else '')
+            if name not in _REDUCERS:
+                continue
+            recv = c.func.value if isinstance(c.func, ast.Attribute) and not d.startswith(('torch.', 'math.')) else (c.args[0] if c.args else None)
+            if recv is None:
+                continue
+            # shape / rank / type quantities are not data
+            meta = any(isinstance(x, ast.Attribute) and x.attr in ('shape', 'ndim', 'dtype', 'device', 'requires_grad', 'ltype') for x in ast.walk(recv)) or \
+                any(isinstance(x, ast.Call) and isinstance(x.func, ast.Attribute) and x.func.attr in ('size', 'dim', 'numel') for x in ast.walk(recv))
+            if meta:
+                continue
+            out.append((n, src(c)[:50]))
+            break
+    return out
+
+
+@guarded
+def rule_batchbranch(repo, rid, modules):
+    res = RuleResult(rid, 'batch transparency of the Lie-tensor kernels: no branch that chooses a formula (if / ternary / while whose body does not raise) tests a '
+                     'reduction of tensor VALUES over the whole batch (.all() / .any() / allclose / .item() / .sum() ...): the result for one item would depend on '
+                     'the other items it is batched with', floor=20)
+    for m in modules:
+        for f in repo.module(m).functions.values():
+            hz = batch_branches(f.node)
+            res.inst({'function': f.fq, 'whole-batch data-dependent branches': [s_ for _, s_ in hz]}, f.fq)
+            for node, s_ in hz:
+                res.add(Finding(rid, f, 'the branch on `%s` collapses the values of the whole batch into one decision and selects a formula for EVERY item: an item '
+                                'that does not satisfy the condition is computed by the shortcut whenever its batch-mates do (or all items lose the shortcut\'s '
+                                'exactness) - batched and item-by-item results differ' % s_, node=node, construct='batch branch|' + norm_construct(node.test, f.node)))
+    fx = ast.parse('def f(X, a):\n    if not torch.any(a):\n        return X\n    if (a.abs() > 9).any():\n        raise ValueError\n    if a.shape[-1] == 3 and a.dim() > 1:\n        a = a[..., :3]\n'
+                   '    s = X if torch.all(X[..., 6] == 1) else X * 2\n    return s\n').body[0]
+    if len(batch_branches(fx)) != 2:
+        raise AnalysisError('%s: fixtures no longer classified (%d)' % (rid, len(batch_branches(fx))))
     return res
